@@ -571,7 +571,7 @@ func main() {
 			}})
 		}
 	}
-	for i := 0; i < run.N(220, 2500); i++ {
+	for i := 0; i < run.N(170, 2500); i++ {
 		seg := segs[rt.Intn(len(segs))]
 		doToy(genToy(rt, seg, 1+rt.Intn(3)))
 	}
